@@ -109,6 +109,9 @@ def arg_from_ast(node: AstNode, ctx: TypeParsingCtx) -> Argument:
             # TODO: To support int args, we need proper inference logic here
             #   See https://github.com/quantinuum/guppylang/issues/1030
             case int(v) if v >= 0:
+                from guppylang_internals.checker.expr_checker import _int_bounds_check
+
+                _int_bounds_check(v, node, signed=False)
                 nat_ty = NumericType(NumericType.Kind.Nat)
                 return ConstArg(ConstValue(nat_ty, v))
             case float(v):
@@ -123,10 +126,14 @@ def arg_from_ast(node: AstNode, ctx: TypeParsingCtx) -> Argument:
 
     # Py-expressions can also be used to specify static numbers
     if comptime_expr := is_comptime_expression(node):
-        from guppylang_internals.checker.expr_checker import eval_comptime_expr
+        from guppylang_internals.checker.expr_checker import (
+            _int_bounds_check,
+            eval_comptime_expr,
+        )
 
         v = eval_comptime_expr(comptime_expr, Context(ctx.globals, Locals({}), {}))
         if isinstance(v, int):
+            _int_bounds_check(v, node, signed=False)
             nat_ty = NumericType(NumericType.Kind.Nat)
             return ConstArg(ConstValue(nat_ty, v))
         else:
